@@ -93,7 +93,7 @@ CLAIMED = {
             "encoded inputs under every builder/namespacing/context/scripting combination, its result is judged by TLC, and it is "
             "driven to depth 1500-5000 with every (prefix, tag) pair that the model says grows the stack; the TLC-computed transition "
             "cover of C01 and every prefix of well-formed encoding declarations (as bytes) are run for totality and skeleton.",
-            "Non-termination is observed as a budget of 20 s of CPU time per parse (wall-clock backstop 600 s), not proved. Deep (pumped) minidom results are only checked for totality. "
+            "Non-termination is observed as a budget of 60 s of CPU time per parse (wall-clock backstop 600 s), not proved. Deep (pumped) minidom results are only checked for totality. "
             "The literal skeleton clause is violated by <noframes> after </frameset> (listed finding; it is also what the standard does).",
             "5/C03"),
     "C05": ("model_checking",
